@@ -29,6 +29,18 @@ LEAVES = [
     ("src/lib.rs", "try_alloc_layout_fast"),
     ("src/collections/raw_vec.rs", "amortized_new_size"),
 ]
+# parts of larger functions, translated as functions of the same parameters:
+#   ("cond", file, fn, new name): the condition of the function's first `if`, which must guard nothing
+#            but an early `return Ok(());` / `return;` (the "there is room already" shortcut)
+#   ("arm", file, fn, scrutinee, variant, new name): the right-hand side of `variant =>` in the
+#            function's `match scrutinee { .. }`
+PARTS = [
+    ("src/collections/raw_vec.rs", "cap"),
+    ("cond", "src/collections/raw_vec.rs", "fallible_reserve_internal", "fallible_reserve_has_room"),
+    ("cond", "src/collections/raw_vec.rs", "infallible_reserve_internal", "infallible_reserve_has_room"),
+    ("arm", "src/collections/raw_vec.rs", "reserve_internal", "strategy", "Exact", "reserve_new_cap_exact"),
+    ("arm", "src/collections/raw_vec.rs", "reserve_internal", "strategy", "Amortized", "reserve_new_cap_amortized"),
+]
 CONST_FILE = "src/lib.rs"
 
 
@@ -347,6 +359,9 @@ class Parser:
                         e = "(EMeth0 %s %s)" % (e, q(m))
                     elif len(a) == 1:
                         e = "(EMeth1 %s %s %s)" % (e, q(m), a[0])
+                    elif len(a) == 2 and e == '(EVar "self")':
+                        # self.f(a, b): a call of the function f of the table; `self` stays in scope
+                        e = "(ECall2 %s %s %s)" % (q(m), a[0], a[1])
                     else:
                         raise Unsupported("method with %d arguments" % len(a))
                 else:
@@ -374,6 +389,9 @@ class Parser:
         kind = self.kind()
         if tok == "(":
             self.eat()
+            if self.peek() == ")":
+                self.eat()
+                return "EUnit"
             e = self.expr()
             self.eat(")")
             return e
@@ -453,6 +471,18 @@ class Parser:
             while self.peek() == "::":
                 self.eat()
                 if self.peek() == "<":
+                    # mem::size_of::<T>() / align_of::<T>(): a parameter of the translated function's
+                    # environment ("size_of_T"); size_of::<usize>() is 8 on the 64-bit target modelled
+                    if segs[-1] in ("size_of", "align_of") and self.kind(1) == "id" and self.peek(2) == ">" \
+                            and self.peek(3) == "(" and self.peek(4) == ")":
+                        self.eat("<")
+                        ty = self.eat()
+                        self.eat(">")
+                        self.eat("(")
+                        self.eat(")")
+                        if ty in ("usize", "u64", "isize", "i64"):
+                            return "(ELit 8)"
+                        return "(EVar %s)" % q(segs[-1] + "_" + ty)
                     raise Unsupported("turbofish")
                 segs.append(self.eat())
             name = segs[-1]
@@ -591,6 +621,68 @@ def translate(repo):
                 notes.append("%s: %d debug assertion(s) not translated" % (name, p.skipped_asserts))
         except (Unsupported, ValueError, IndexError) as e:
             notes.append("%s: NOT TRANSLATED (%s)" % (name, e))
+    for part in PARTS:
+        kind = part[0] if part[0] in ("cond", "arm") else "fn"
+        path = part[1] if kind != "fn" else part[0]
+        fname = part[2] if kind != "fn" else part[1]
+        newname = part[-1]
+        if path not in cache:
+            try:
+                cache[path] = strip_comments(open(os.path.join(repo, path)).read())
+            except OSError:
+                cache[path] = ""
+        try:
+            found = find_fn(cache[path], fname)
+            if not found:
+                raise Unsupported("function not found")
+            params, body = found
+            toks = tokenize(body)
+            if kind == "fn":
+                p = Parser(toks)
+                term = p.block()
+                if p.i != len(p.t):
+                    raise Unsupported("trailing tokens")
+            elif kind == "cond":
+                vals = [t[1] for t in toks]
+                i = vals.index("if")
+                p = Parser(toks)
+                p.i = i + 1
+                term = p.expr(no_struct=True)
+                rest = "".join(vals[p.i:p.i + 12])
+                if not (rest.startswith("{returnOk(());}") or rest.startswith("{return;}")):
+                    raise Unsupported("the first `if` does not guard a bare early return: %s" % rest[:30])
+                if "if" in vals[:i]:
+                    raise Unsupported("not the first statement")
+            else:
+                scrut, variant = part[3], part[4]
+                vals = [t[1] for t in toks]
+                term = None
+                for i in range(len(vals) - 2):
+                    if vals[i] == "match" and vals[i + 1] == scrut and vals[i + 2] == "{":
+                        j = i + 3
+                        depth = 0
+                        while j < len(vals):
+                            if vals[j] in "({[":
+                                depth += 1
+                            elif vals[j] in ")}]":
+                                if depth == 0:
+                                    break
+                                depth -= 1
+                            elif depth == 0 and vals[j] == variant and vals[j + 1] == "=>":
+                                p = Parser(toks)
+                                p.i = j + 2
+                                term = p.block() if p.peek() == "{" else p.expr()
+                                if p.peek() not in (",", "}"):
+                                    raise Unsupported("arm does not end at `,`")
+                                break
+                            j += 1
+                        break
+                if term is None:
+                    raise Unsupported("arm %s of match %s not found" % (variant, scrut))
+            term = fix_path_vars(term)
+            fns.append((newname, param_names(params), term))
+        except (Unsupported, ValueError, IndexError) as e:
+            notes.append("%s: NOT TRANSLATED (%s)" % (newname, e))
     consts = []
     opaque = []
     txt = cache.get(CONST_FILE) or strip_comments(open(os.path.join(repo, CONST_FILE)).read())
